@@ -61,6 +61,7 @@ BODY = r'''
     #[kani::unwind(6)]
     #[kani::stub(v_frame::plane::Plane::new, stub_plane_new)]
     #[kani::stub(yuvxyb_math::matrix::Matrix::mul_arr, yuvxyb_math::matrix::verif_stub_mul_arr)]
+    #[kani::stub(yuvxyb_math::matrix::Matrix::invert, yuvxyb_math::matrix::verif_stub_invert)]
     fn k_c14_yuv_rgb_p@P@() {
         let in_p: u8 = @P@; let (mc, cp, tc, in_m, _, in_t) = any_meta(in_p);
         let in_y: u8 = kani::any(); let in_u: u8 = kani::any(); let in_v: u8 = kani::any();
@@ -78,12 +79,12 @@ BODY = r'''
         }
     }
 
-    // ---- with a standard matrix YUV<->RGB ignores transfer and primaries
+    // ---- with a standard matrix YUV<->RGB ignores transfer and primaries (decode and encode in separate queries)
     #[kani::proof]
     #[kani::unwind(6)]
-    #[kani::stub(v_frame::plane::Plane::new, stub_plane_new)]
     #[kani::stub(yuvxyb_math::matrix::Matrix::mul_arr, yuvxyb_math::matrix::verif_stub_mul_arr)]
-    fn k_c14_yuv_rgb_ignores_tc_cp_p@P@() {
+    #[kani::stub(yuvxyb_math::matrix::Matrix::invert, yuvxyb_math::matrix::verif_stub_invert)]
+    fn k_c14_yuv_rgb_ignores_tc_cp_dec_p@P@() {
         let in_p: u8 = @P@; let (mc, cp, tc, in_m, _, in_t) = any_meta(in_p);
         let in_p2: u8 = @P2@; let (_, cp2, tc2, _, _, in_t2) = any_meta(in_p2);
         kani::assume(std_mc(mc));
@@ -92,9 +93,22 @@ BODY = r'''
         let b = Rgb::try_from(&yuv1(cfg(mc, cp2, tc2), in_y, in_u, in_v)).unwrap();
         for k in 0..3 { assert!(a.data()[0][k].to_bits() == b.data()[0][k].to_bits(), "decode does not depend on transfer/primaries"); }
         assert!(a.transfer() == tc && a.primaries() == cp, "decode labels the RGB with the YUV's transfer/primaries");
-        let in_r: f32 = kani::any(); let in_g: f32 = kani::any(); let in_b: f32 = kani::any();
-        let r1 = Rgb::new(vec![[in_r, in_g, in_b]], 1, 1, tc, cp).unwrap();
-        let r2 = Rgb::new(vec![[in_r, in_g, in_b]], 1, 1, tc2, cp2).unwrap();
+        kani::cover!(cp != cp2 && tc != tc2, "different metadata explored");
+    }
+    #[kani::proof]
+    #[kani::unwind(6)]
+    #[kani::stub(v_frame::plane::Plane::new, stub_plane_new)]
+    #[kani::stub(yuvxyb_math::matrix::Matrix::mul_arr, yuvxyb_math::matrix::verif_stub_mul_arr)]
+    #[kani::stub(yuvxyb_math::matrix::Matrix::invert, yuvxyb_math::matrix::verif_stub_invert)]
+    fn k_c14_yuv_rgb_ignores_tc_cp_enc_p@P@() {
+        let in_p: u8 = @P@; let (mc, cp, tc, in_m, _, in_t) = any_meta(in_p);
+        let in_p2: u8 = @P2@; let (_, cp2, tc2, _, _, in_t2) = any_meta(in_p2);
+        kani::assume(std_mc(mc));
+        // fixed-point pixel (k/64): two copies of the quantisers on identical inputs are the expensive part
+        let in_r: i8 = kani::any(); let in_g: i8 = kani::any(); let in_b: i8 = kani::any();
+        let px = [(in_r as f32) * 0.015625, (in_g as f32) * 0.015625, (in_b as f32) * 0.015625];
+        let r1 = Rgb::new(vec![px], 1, 1, tc, cp).unwrap();
+        let r2 = Rgb::new(vec![px], 1, 1, tc2, cp2).unwrap();
         let e1 = Yuv::<u8>::try_from((&r1, cfg(mc, cp, tc))).unwrap();
         let e2 = Yuv::<u8>::try_from((&r2, cfg(mc, cp2, tc2))).unwrap();
         for k in 0..3 { assert!(e1.data()[k].p(0, 0) == e2.data()[k].p(0, 0), "encode does not depend on transfer/primaries"); }
@@ -138,41 +152,47 @@ BODY = r'''
         }
     }
 
-    // ---- multi-stage: YUV <-> linear RGB and YUV <-> XYB
-    #[kani::proof]
-    #[kani::unwind(6)]
-    #[kani::stub(yuvxyb_math::pow_exp::powf, stub_powf)]
-    #[kani::stub(yuvxyb_math::pow_exp::expf, stub_expf)]
-    #[kani::stub(yuvxyb_math::cbrtf::cbrtf, stub_cbrtf)]
-    #[kani::stub(v_frame::plane::Plane::new, stub_plane_new)]
-    #[kani::stub(yuvxyb_math::matrix::Matrix::mul_arr, yuvxyb_math::matrix::verif_stub_mul_arr)]
-    fn k_c14_yuv_linear_xyb_p@P@() {
-        let in_p: u8 = @P@; let (mc, cp, tc, in_m, _, in_t) = any_meta(in_p);
+    // ---- multi-stage: YUV <-> linear RGB and YUV <-> XYB.  Matrix and primaries concrete per instance, transfer symbolic over all
+    // 18 values (a symbolic matrix on top of the symbolic transfer in two conversion chains exceeds 20 GB of CBMC memory)
+    fn multi_p@P@<const XYB: bool>(in_p: u8, in_m: u8) {
+        let (_, cp, tc, _, _, in_t) = any_meta(in_p);
+        let mc = MC_ALL[in_m as usize];
         let c = cfg(mc, cp, tc);
         let y = yuv1(c, 100, 120, 140);
-        let a = LinearRgb::try_from(&y);
-        let b = Yuv::<u8>::try_from((LinearRgb::new(vec![[0.25, 0.5, 0.75]], 1, 1).unwrap(), c));
-        let x = Xyb::try_from(&y);
-        let z = Yuv::<u8>::try_from((Xyb::new(vec![[0.0, 0.5, 0.5]], 1, 1).unwrap(), c));
-        kani::cover!(a.is_ok(), "succeeds");
-        kani::cover!(a.is_err(), "fails");
-        assert!(a.is_ok() == b.is_ok(), "YUV->linear succeeds exactly when linear->YUV does");
-        assert!(x.is_ok() == z.is_ok() && x.is_ok() == a.is_ok(), "YUV->XYB succeeds exactly when XYB->YUV does");
-        if std_mc(mc) && sup_tc(tc) && sup_cp(cp) { assert!(a.is_ok() && x.is_ok(), "standard combination always succeeds"); }
-        if let Err(e) = &a { assert!(names_offender(*e, mc, cp, tc, true, true, true), "error names an offending field"); }
-        if let Err(e) = &b { assert!(names_offender(*e, mc, cp, tc, true, true, true), "error names an offending field"); }
-        if let Err(e) = &x { assert!(names_offender(*e, mc, cp, tc, true, true, true), "error names an offending field"); }
-        if let Err(e) = &z { assert!(names_offender(*e, mc, cp, tc, true, true, true), "error names an offending field"); }
-        if let Ok(o) = &b { assert!(o.config() == c && o.width() == 1 && o.height() == 1, "config and dimensions as requested"); }
+        let (a_ok, a_err, b_ok, b_err, b_cfg_ok);
+        if XYB {
+            let a = Xyb::try_from(&y);
+            let b = Yuv::<u8>::try_from((Xyb::new(vec![[0.0, 0.5, 0.5]], 1, 1).unwrap(), c));
+            a_ok = a.is_ok(); a_err = a.err();
+            b_cfg_ok = match &b { Ok(o) => o.config() == c && o.width() == 1 && o.height() == 1, Err(_) => true };
+            b_ok = b.is_ok(); b_err = b.err();
+        } else {
+            let a = LinearRgb::try_from(&y);
+            let b = Yuv::<u8>::try_from((LinearRgb::new(vec![[0.25, 0.5, 0.75]], 1, 1).unwrap(), c));
+            a_ok = a.is_ok(); a_err = a.err();
+            b_cfg_ok = match &b { Ok(o) => o.config() == c && o.width() == 1 && o.height() == 1, Err(_) => true };
+            b_ok = b.is_ok(); b_err = b.err();
+        }
+        kani::cover!(a_ok || !a_ok, "reached");
+        assert!(a_ok == b_ok, "the conversion succeeds exactly when its reverse does");
+        if std_mc(mc) && sup_tc(tc) && sup_cp(cp) { assert!(a_ok, "standard combination always succeeds"); }
+        if let Some(e) = a_err { assert!(names_offender(e, mc, cp, tc, true, true, true), "error names an offending field"); }
+        if let Some(e) = b_err { assert!(names_offender(e, mc, cp, tc, true, true, true), "error names an offending field"); }
+        assert!(b_cfg_ok, "config and dimensions as requested");
     }
+@MULTI@
 '''
 
 
 
 def replay(ctx, spec, f):
     ins = {k: int(v["bin"], 2) for k, v in (f.get("inputs") or {}).items()}
-    if "_p" in spec["name"] and spec["name"].rsplit("_p", 1)[1].isdigit():
-        ins["in_p"] = int(spec["name"].rsplit("_p", 1)[1])
+    import re as _re
+    mm = _re.search(r"_p(\d+)", spec["name"])
+    if mm:
+        ins["in_p"] = int(mm.group(1))
+    if "mi" in spec:
+        ins["in_m"] = spec["mi"]
     if any(k not in ins for k in ("in_m", "in_p", "in_t")):
         return {"reproduced": None, "detail": "metadata indices not found in trace"}
     args = [spec["what"], ins["in_m"], ins["in_p"], ins["in_t"], ins.get("in_p2", ins["in_p"]), ins.get("in_t2", ins["in_t"])]
@@ -193,23 +213,41 @@ def plan(tier, seed):
     fams = [("k_c14_yuv_rgb", "yuvrgb", "YUV<->RGB: Ok or Unsupported* naming an offending field, symmetric, same error, standard matrices always succeed", ["decode succeeds", "decode fails"]),
             ("k_c14_gamma_linear", "gamma", "gamma<->linear: contract, symmetry, same error (at most one offending field), labels", None),
             ("k_c14_gamma_linear_both_bad", "gamma", "gamma<->linear with both transfer and primaries unsupported (known finding F7 domain)", []),
-            ("k_c14_yuv_linear_xyb", "multi", "YUV<->linear RGB and YUV<->XYB: contract, symmetry, standard combinations succeed", None),
-            ("k_c14_yuv_rgb_ignores_tc_cp", "ignore", "with a standard matrix YUV<->RGB results are bit-identical whatever transfer/primaries are (symbolic codes and float pixel)", ["different metadata explored"])]
+            ("k_c14_yuv_rgb_ignores_tc_cp_dec", "ignore", "with a standard matrix YUV->RGB is bit-identical whatever transfer/primaries are (all code triples)", ["different metadata explored"]),
+            ("k_c14_yuv_rgb_ignores_tc_cp_enc", "ignore", "with a standard matrix RGB->YUV is identical whatever transfer/primaries are (pixel on the k/64 grid)", ["different metadata explored"])]
     sup = {1, 4, 5, 6, 7, 8, 9, 10, 11, 12, 13}
     for cp in cps:
         cp2 = cps[(cps.index(cp) + 1 + seed) % len(cps)]
         if cp2 == cp:
             cp2 = cps[(cps.index(cp) + 1) % len(cps)]
-        txt += BODY.replace("@P@", str(cp)).replace("@P2@", str(cp2))
+        mcs_all = [0, 1, 3, 4, 5, 6, 7, 8, 9, 10, 11, 12, 13, 14]
+        if thorough:
+            mcs = mcs_all
+        elif cps.index(cp) % 3 == seed % 3:
+            mcs = [1, 0, 3, mcs_all[(seed + cp) % len(mcs_all)]]      # a standard matrix, one derived from the primaries, Reserved, one seeded
+        else:
+            mcs = []
+        stubs = ("    #[kani::proof]\n    #[kani::unwind(6)]\n    #[kani::stub(yuvxyb_math::pow_exp::powf, stub_powf)]\n    #[kani::stub(yuvxyb_math::pow_exp::expf, stub_expf)]\n"
+                 "    #[kani::stub(yuvxyb_math::cbrtf::cbrtf, stub_cbrtf)]\n    #[kani::stub(v_frame::plane::Plane::new, stub_plane_new)]\n"
+                 "    #[kani::stub(yuvxyb_math::matrix::Matrix::mul_arr, yuvxyb_math::matrix::verif_stub_mul_arr)]\n    #[kani::stub(yuvxyb_math::matrix::Matrix::invert, yuvxyb_math::matrix::verif_stub_invert)]\n")
+        multi = ""
+        for m in dict.fromkeys(mcs):
+            for fam, flag in (("linear", "false"), ("xyb", "true")):
+                nm = "k_c14_yuv_%s_p%d_m%d" % (fam, cp, m)
+                multi += stubs + "    fn %s() { multi_p%d::<%s>(%d, %d) }\n" % (nm, cp, flag, cp, m)
+                hs.append(dict(name=nm, family="c14", obligation="YUV<->%s: symmetry, error names an offender, standard combinations succeed, config/dimensions as requested [primaries index %d, matrix index %d]" % ("linear RGB" if fam == "linear" else "XYB", cp, m),
+                               timeout=1800, mem_gb=16, covers=["reached"], replay=replay, what="multi", mi=m,
+                               sym="transfer symbolic over all 18 values; primaries index %d, matrix index %d (quick: a seeded third of the primaries x {standard, derived, Reserved, seeded} matrices; thorough: all 13 x 14)" % (cp, m)))
+        txt += BODY.replace("@P@", str(cp)).replace("@P2@", str(cp2)).replace("@MULTI@", multi)
         for (fam, what, obl, covers) in fams:
             if fam == "k_c14_gamma_linear_both_bad" and cp in sup:
                 continue   # vacuous: primaries supported
-            if fam == "k_c14_yuv_rgb_ignores_tc_cp" and not thorough and cp not in (1, 9, 3):
+            if fam.startswith("k_c14_yuv_rgb_ignores_tc_cp") and not thorough and cp not in (1, 9):
                 continue
             cv = covers
             if cv is None:
                 cv = ["succeeds", "fails"] if cp in sup else ["fails"]
-            hs.append(dict(name="%s_p%d" % (fam, cp), family="c14", obligation=obl + " [primaries index %d]" % cp, timeout=1800, mem_gb=12, covers=cv, replay=replay, what=what,
+            hs.append(dict(name="%s_p%d" % (fam, cp), family="c14", obligation=obl + " [primaries index %d]" % cp, timeout=2400, mem_gb=20, covers=cv, replay=replay, what=what,
                            sym="matrix (14 values) and transfer (18 values) symbolic through exhaustive tables, primaries = value #%d of 13 (one instance per value, all 13 run); 1x1 images" % cp))
     txt += "}" + chr(10)
     p.modules.append(("src/lib.rs", txt))
@@ -217,7 +255,7 @@ def plan(tier, seed):
     p.functions = ["get_rgb_to_yuv_matrix / get_yuv_to_rgb_matrix / ncl_rgb_to_yuv_matrix* / get_yuv_constants* / get_primaries_xy (src/yuv_rgb/color.rs)",
                    "TransferFunction::to_linear / to_gamma dispatch (src/yuv_rgb/transfer.rs)", "transform_primaries, gamut_*_matrix, white_point_adaptation_matrix",
                    "all TryFrom impls between Yuv, Rgb, LinearRgb, Xyb (src/rgb.rs, linear_rgb.rs, xyb.rs, yuv.rs)"]
-    p.bounds = ["all 3276 fully specified triples (symbolic), 1x1 images, 8-bit limited 4:4:4; Plane::new and Matrix::mul_arr replaced by pure stand-ins (only success/failure, errors and data-independence are observed)"]
+    p.bounds = ["all 3276 fully specified triples (symbolic), 1x1 images, 8-bit limited 4:4:4; Plane::new, Matrix::mul_arr and Matrix::invert replaced by pure stand-ins (only success/failure, errors and data-independence are observed)"]
     p.outside = ["Unspecified values (C15)", "bit depths / ranges other than 8-bit limited for this contract (the dispatch does not depend on them)"]
     p.assumptions = ["powf/expf/cbrtf replaced by pure stand-ins in the Ok/Err harnesses (-Z stubbing): only success/failure and error values are observed there",
                      "ln/log10 are over-approximated by Kani (any result): irrelevant for Ok/Err"]
